@@ -94,10 +94,15 @@ impl Database {
                                         change.key,
                                         pendding_conflict.len()
                                     );
-                                    (
-                                        pendding_conflict.last().unwrap().to_string(),
-                                        version + pendding_conflict.len() as i32,
-                                    )
+                                    match pendding_conflict.last() {
+                                        Some(last_conflict) => (
+                                            last_conflict.to_string(),
+                                            version.saturating_add(pendding_conflict.len() as i32),
+                                        ),
+                                        // The queue can be empty: $conflicts_ entries are
+                                        // ordinary keys that a client may have removed
+                                        None => (old_value.to_string(), version),
+                                    }
                                 } else {
                                     (old_value.to_string(), old_version)
                                 };
